@@ -181,7 +181,7 @@ Proof.
   unfold R, mp4_render in *. destruct (zlen data + 8 <=? 4294967295) eqn:E.
   - (* 32-bit form *)
     assert (Hh : mp4_rd (be_encode 4 (zlen data + 8) ++ n ++ data) 0 8 = be_encode 4 (zlen data + 8) ++ n).
-    { unfold mp4_rd, zslice. rewrite zdrop_0. cbn [Z.add Z.sub]. rewrite app_assoc.
+    { rewrite rd_is_slice by lia. unfold zslice. rewrite zdrop_0. cbn [Z.add Z.sub]. rewrite app_assoc.
       apply ztake_app_n. rewrite zlen_app, zlen_be_enc, Hn. reflexivity. }
     rewrite Hh. rewrite ztake_app_n by apply zlen_be_enc. rewrite zdrop_app_n by apply zlen_be_enc.
     assert (Hne : list_eqb n n = true) by (apply list_eqb_spec; reflexivity). rewrite Hne. cbn [andb].
@@ -191,7 +191,7 @@ Proof.
     assert (G4 : (8 <=? Z.of_nat 4 + (4 + zlen data)) = true) by (apply Z.leb_le; lia). rewrite G4. reflexivity.
   - (* 64-bit form *)
     assert (Hh : mp4_rd (be_encode 4 1 ++ n ++ be_encode 8 (zlen data + 8 + 8) ++ data) 0 8 = be_encode 4 1 ++ n).
-    { unfold mp4_rd, zslice. rewrite zdrop_0. cbn [Z.add Z.sub]. rewrite app_assoc.
+    { rewrite rd_is_slice by lia. unfold zslice. rewrite zdrop_0. cbn [Z.add Z.sub]. rewrite app_assoc.
       apply ztake_app_n. rewrite zlen_app, zlen_be_enc, Hn. reflexivity. }
     rewrite Hh. rewrite ztake_app_n by apply zlen_be_enc. rewrite zdrop_app_n by apply zlen_be_enc.
     assert (Hne : list_eqb n n = true) by (apply list_eqb_spec; reflexivity). rewrite Hne. cbn [andb].
@@ -199,7 +199,7 @@ Proof.
     assert (E16 : mp4_rd g (p + 8) 8 = be_encode 8 (zlen data + 8 + 8)).
     { rewrite !zlen_app, !zlen_be_enc, Hn in AGR.
       rewrite <- (agree_rd _ _ _ _ _ 8 8 AGR) by lia. cbn [Z.add].
-      unfold mp4_rd, zslice. replace (8 + 8 - 8) with 8 by lia. rewrite app_assoc.
+      rewrite rd_is_slice by lia. unfold zslice. replace (8 + 8 - 8) with 8 by lia. rewrite app_assoc.
       rewrite zdrop_app_n by (rewrite zlen_app, zlen_be_enc, Hn; reflexivity).
       apply ztake_app_n. apply zlen_be_enc. }
     rewrite E16. rewrite zlen_be_enc. rewrite be_dec_enc8 by (unfold MP4_U64 in *; lia).
